@@ -22,7 +22,7 @@
   `caseCounter` starts at 1 (functions.go:41); `case 0:` is the function entry (functions.go:336).
 
   Machine semantics: a frame is (`$s`, store, `$r`, `$c`); `Exec` is the machine without suspension, `RunS` the
-  machine under a schedule `sched : dynamic call index → number of suspensions`, where every suspension saves
+  machine under a schedule `sched : dynamic call index → call site → store → number of suspensions`, where every suspension saves
   the frame (`$f = {…}`, functions.go:302-304), returns, and the next invocation restores it
   (`$restore`, functions.go:299-300 and prelude/goroutines.js:223-228) and re-enters through `switch ($s)`.
   `forget : σ → σ` is what a save/restore round trip does to the store (locals that are not saved come back
@@ -164,7 +164,7 @@ def flatM (ctx : Ctx) : Stmt → Mode → Nat → List Instr × Nat
         (q.1 ++ [.jmp n], q.2)
       pre m (.case n :: condc ++ r.1 ++ pc.1 ++ [.case (n + 1)], pc.2)
     else pre m ([.direct (.loop l c p b) ctx], n)
-  | .ite c t e, some (off, en, i), n =>
+  | .ite _ t e, some (off, en, i), n =>
     -- else-if clause `i` of an enclosing flattened chain
     let a := flatM ctx t none n
     let r := flatM ctx e (some (off, en, i + 1)) a.2
@@ -231,7 +231,7 @@ inductive Exec (E : Env σ) (code : List Instr) : List Instr → σ → σ → P
     will suspend `m` more times before completing), `$c`, index of the next dynamic call.
     A suspension (`break s`, save `$f`, return; later `$restore`, `switch ($s)`) continues at `seek n code` with the
     store `forget st`, the saved `$r`, and `$c = true`. -/
-inductive RunS (E : Env σ) (forget : σ → σ) (sched : Nat → Nat) (code : List Instr) :
+inductive RunS (E : Env σ) (forget : σ → σ) (sched : Nat → Nat → σ → Nat) (code : List Instr) :
     List Instr → σ → Option (Nat × Nat) → Bool → Nat → σ → Prop where
   | nil : RunS E forget sched code [] st r c k st
   | case : RunS E forget sched code rest st r c k o → RunS E forget sched code (.case n :: rest) st r c k o
@@ -256,10 +256,10 @@ inductive RunS (E : Env σ) (forget : σ → σ) (sched : Nat → Nat) (code : L
       RunS E forget sched code (.direct s ctx :: rest) st r c k o
   | directR : hasCall s = false → Eval E s st .ret st1 → RunS E forget sched code (.direct s ctx :: rest) st r c k st1
   /-- fresh call that completes at once: `$r = f()` is a value -/
-  | callNow : sched k = 0 → RunS E forget sched code rest (E.call f st) none false (k + 1) o →
+  | callNow : sched k f st = 0 → RunS E forget sched code rest (E.call f st) none false (k + 1) o →
       RunS E forget sched code (.call f n :: rest) st none false k o
   /-- fresh call that suspends: `$r = f()` is a frame, `$s = n`, `break s`, save, return; restore, re-enter -/
-  | callSusp : sched k = m + 1 → RunS E forget sched code (seek n code) (forget st) (some (f, m)) true (k + 1) o →
+  | callSusp : sched k f st = m + 1 → RunS E forget sched code (seek n code) (forget st) (some (f, m)) true (k + 1) o →
       RunS E forget sched code (.call f n :: rest) st none false k o
   /-- re-entered at `case n` with `$c`: `$c = false; $r = $r.$blk()` completes -/
   | resumeDone : RunS E forget sched code rest (E.call f' st) none false k o →
@@ -276,7 +276,7 @@ structure RunStat where
   deriving Repr
 
 /-- fuel-indexed executable version of `RunS` (also counts suspensions). `none` = out of fuel or stuck. -/
-def runF (E : Env σ) (forget : σ → σ) (sched : Nat → Nat) (code : List Instr) :
+def runF (E : Env σ) (forget : σ → σ) (sched : Nat → Nat → σ → Nat) (code : List Instr) :
     Nat → List Instr → σ → Option (Nat × Nat) → Bool → Nat → Nat → Option (σ × Nat × Nat)
   | 0, _, _, _, _, _, _ => none
   | _ + 1, [], st, _, _, k, ns => some (st, k, ns)
@@ -307,7 +307,7 @@ def runF (E : Env σ) (forget : σ → σ) (sched : Nat → Nat) (code : List In
     | .call f n =>
       match r, c with
       | none, false =>
-        match sched k with
+        match sched k f st with
         | 0 => runF E forget sched code fuel rest (E.call f st) none false (k + 1) ns
         | m + 1 => runF E forget sched code fuel (seek n code) (forget st) (some (f, m)) true (k + 1) (ns + 1)
       | some (f', 0), true => runF E forget sched code fuel rest (E.call f' st) none false k ns
